@@ -2,6 +2,21 @@
 (their statements are kept in a comment) until the file compiles; returns the failing ids."""
 import re, os, subprocess, json
 
+def add_aggregate(path):
+    """append the conjunction of all surviving obligations and its proof (stated as ONE theorem in C11_Props.v)"""
+    txt = open(path).read()
+    if "c11_all_obligations" in txt:
+        return
+    lem = re.findall(r"^Lemma (ob_\S+) : (.*)\.$", txt, re.M)
+    stmts = " /\\\n  ".join("(%s)" % s for _, s in lem)
+    proof = "I"
+    for n, _ in reversed(lem):
+        proof = "(conj %s %s)" % (n, proof)
+    txt += "\n(* conjunction of the %d obligations above that lia proves (added by lib/c11.py) *)\n" % len(lem)
+    txt += "Definition c11_all_obligations : Prop :=\n  %s%sTrue.\n" % (stmts, " /\\\n  " if lem else "")
+    txt += "Lemma c11_all_obligations_hold : c11_all_obligations.\nProof. exact %s. Qed.\n" % proof
+    open(path, "w").write(txt)
+
 def prove_obligations(coqdir, timeout=600):
     path = os.path.join(coqdir, "Gen_C11.v")
     failing = []
@@ -9,6 +24,7 @@ def prove_obligations(coqdir, timeout=600):
         p = subprocess.run(["timeout", str(timeout), "coqc", "-Q", coqdir, "V", path], stdout=subprocess.PIPE,
                            stderr=subprocess.STDOUT, text=True, cwd=coqdir)
         if p.returncode == 0:
+            add_aggregate(path)
             return failing, None
         m = re.search(r'line (\d+), characters', p.stdout)
         if not m:
